@@ -16,8 +16,8 @@ RULE = (
     "non-trivial = >=2 statements; distinct = text"
 )
 BUDGET = {
-    "quick": {"workers": 16, "cases": 40, "secs": 50, "min_cases": 350},
-    "thorough": {"workers": 16, "rounds": 4, "cases": 170, "secs": 280, "min_cases": 4000},
+    "quick": {"workers": 16, "cases": 170, "secs": 60, "min_cases": 1360},
+    "thorough": {"workers": 16, "rounds": 4, "cases": 520, "secs": 420, "min_cases": 16640},
 }
 ANCHORS = ["parsing.fast_verilog:fast_parse_verilog_netlist", "parsing.verilog:parse_verilog_netlist", "io:verilog_to_circuit"]
 
